@@ -43,9 +43,9 @@ theorem validate_check_ok (ebgp : Bool) (reach mpReach : Option Reach) (unreach 
     byte-level reference checker `USpec.check` (valid UPDATE + RFC 7606 corruptions ↦ allowed outcomes) accepts what
     the model (`try_parse`, then `validate_message`) makes of the rendered bytes.  `dec` stands for the NLRI decoders
     of families other than IPv4/IPv6 unicast/multicast, which a `wfCase` case does not use. -/
-theorem check_run_ok_full (dec : HypDec) (hd : dec.NP) (p : Profile) (c : Codec) (ebgp : Bool) (u : CUpdate)
-    (cs : List Corr) : USpec.check c ebgp u cs (runUpdate dec p c ebgp (render c u cs)) = .ok :=
-  Rbgp.Wire.check_run_ok dec hd p c ebgp u cs
+theorem check_run_ok_full (dec : HypDec) (hd : dec.NP) (hde : dec.E3) (p : Profile) (c : Codec) (ebgp : Bool)
+    (u : CUpdate) (cs : List Corr) : USpec.check c ebgp u cs (runUpdate dec p c ebgp (render c u cs)) = .ok :=
+  Rbgp.Wire.check_run_ok dec hd hde p c ebgp u cs
 
 /-! ## 1. treat-as-withdraw: no route announced, every announced prefix withdrawn -/
 
@@ -110,6 +110,23 @@ theorem ebgp_filters_ibgp_attrs (reach mpReach : Option Reach) (unreach mpUnreac
 /-- the decoder's canonical flags are the property's attribute classes -/
 theorem classification_table_types (code : Nat) : (canonicalFlags code).map flagBits = attrClass code :=
   canonical_table code
+
+/-- the property's classes are, row by row, those of the documents that define each attribute type (`rfcTable`:
+    RFC 4271, 1997, 4456, 4760, 4360, 6793, 9012, 7311, 9552, 8092, 8669); codes outside the table have no class -/
+theorem rfcTable_known : ∀ x ∈ rfcTable, x.1 ∈ knownCodes := by decide
+
+theorem classification_table_rfc (code : Nat) : attrClass code = rfcClass code := by
+  by_cases hk : code ∈ knownCodes
+  · revert code; decide
+  · rw [attrClass_none_of_not_known hk]
+    have : rfcTable.find? (·.1 == code) = none := by
+      rw [List.find?_eq_none]
+      intro x hx heq
+      have h1 := rfcTable_known x hx
+      have h2 : x.1 = code := by simpa using heq
+      exact hk (h2 ▸ h1)
+    unfold rfcClass
+    rw [this]; rfl
 
 /-- wrong Optional/Transitive bits are detected exactly when they differ from the type's class -/
 theorem classification_table_flags (code flags : Nat) (hf : flags < 256) :
@@ -206,5 +223,18 @@ theorem nonvacuous_full :
       .fail "duplicate-attribute-believed-instead-of-the-first" ∧
     USpec.check codecV4 false uOk [.flags 3 0x80] (.reset ⟨3, 4, []⟩) =
       .fail "session-reset-although-the-nlri-can-be-located-and-parsed" := by decide
+
+/-- the clause for cases with damaged framing is not vacuous: ORIGIN with wrong flags in front of a COMMUNITIES
+    attribute whose length field is off; announcing the route is rejected, a reset or a withdraw is accepted -/
+theorem nonvacuous_weak_prefix :
+    wfCase codecV4 uOk [.flags 0 0x80, .lenfield 3 5] = true ∧
+    (allClasses codecV4 uOk [.flags 0 0x80, .lenfield 3 5]).contains .weak = true ∧
+    prefixMustTaw codecV4 uOk [.flags 0 0x80, .lenfield 3 5] = true ∧
+    USpec.check codecV4 false uOk [.flags 0 0x80, .lenfield 3 5]
+      (.ok [.reach 65537 (some [10, 0, 0, 1]) [⟨0, 8, [10, 0, 0, 0]⟩] [⟨2, 0x40, .bin []⟩]]) =
+      .fail "route-announced-although-an-attribute-before-the-framing-damage-requires-treat-as-withdraw" ∧
+    USpec.check codecV4 false uOk [.flags 0 0x80, .lenfield 3 5] (.reset ⟨3, 1, []⟩) = .ok ∧
+    USpec.check codecV4 false uOk [.flags 0 0x80, .lenfield 3 5] (.reset ⟨2, 0, []⟩) =
+      .fail "session-reset-with-a-notification-that-is-not-an-update-error" := by decide
 
 end Rbgp.Wire.UProps
